@@ -67,10 +67,12 @@ class Points:
         """
         points_out = []
         space_out = Space({})
-        shape = points_l[0].shape
+        shape = None
         for points in points_l:
             if points.isempty:
                 continue
+            if shape is None:  # reference shape: the first non-empty operand
+                shape = points.shape
             assert space_out.keys().isdisjoint(points.space)
             assert points.shape == shape
             points_out.append(points._t)
